@@ -20,6 +20,8 @@ from os.path import isfile, exists
 from shutil import copy2, copyfileobj
 from pathlib import Path
 
+from ruamel.yaml.compat import check_anchorname_char
+
 from yamlpath import __version__ as YAMLPATH_VERSION
 from yamlpath.common import Nodes, Parsers
 from yamlpath import YAMLPath
@@ -239,6 +241,14 @@ def validateargs(args, log):
             .replace("&", "")
             .replace("*", "")
         )
+
+        # Whatever remains must be a legal Anchor name lest the change be
+        # refused only while the result is being written
+        if not all(check_anchorname_char(char) for char in args.anchor):
+            has_errors = True
+            log.error(
+                "The --anchor|-H name may contain neither white-space nor"
+                " any of the YAML flow indicators:  , [ ] { }")
 
     # --anchor can be used only when --aliasof or --mergekey are set
     if args.anchor and not (args.aliasof or args.mergekey):
